@@ -9,8 +9,9 @@ tables that `lex.Compile` produces.  Core Lean only (linked into `tmv`).
   resolves named patterns (`{name}` is replaced by the pattern's AST, as `reCompiler.serialize` does) and sends
   `{eoi}` as the one-symbol class `[(-1,-1)]`, so rule expressions are `ext`-free; `Lang noExt` is
   the denotation of C10 with no named patterns left.
-* `deriv`, `nullable`, `emptyB`: Brzozowski derivatives with simplifying constructors, the empty-word
-  test and the exact emptiness test (`Proofs/LexDeriv.lean` proves them against `Lang`).
+* `deriv`, `nullable`, `emptyB`, `norm`: Brzozowski derivatives with simplifying constructors, the empty-word
+  test, the exact emptiness test and a language-preserving head normal form (`Proofs/LexDeriv.lean` proves
+  them against `Lang`).
 * `Rule`, `scanSpec`: the property as a definition (executable), `ScanResult`: the same as a relation
   stated with languages only.
 * `checkClasses`, `checkDfa`: the validator (Mode V).
@@ -149,6 +150,41 @@ def deriv (s : Int) : Regex → Regex
 
 def derivs (r : Regex) (w : List Int) : Regex := w.foldl (fun r s => deriv s r) r
 
+/-! Head normal form.  A derivative such as `x*·r{0,2}·t` hides, behind its nullable head, the continuations
+that the subset construction of `lex/generator.go` lists eagerly (its states are closed under ε-links), and two
+texts reaching the same DFA state can leave syntactically different derivatives with the same language.
+`norm` expands an expression into an alternation of `ε` and concatenations that start with a character class
+(one per position "about to be consumed", as in the generator), which makes the derivative vector paired with a
+DFA state unique in practice; only `L (norm r) = L r` is proved and needed. -/
+
+/-- The non-empty words of `r{mn,mx}`: `hr` are the heads of `r`, `nr` says that `r` matches the empty word
+(then the heads of the following copies are listed too). -/
+def headsRep (hr : Regex) (nr : Bool) (r : Regex) : Nat → Nat → Option Nat → Regex
+  | 0, mn, mx =>
+    match mx with
+    | some 0 => empty
+    | _ => seq hr (repS r (mn - 1) (mx.map (· - 1)))
+  | fuel + 1, mn, mx =>
+    match mx with
+    | some 0 => empty
+    | _ =>
+      let first := seq hr (repS r (mn - 1) (mx.map (· - 1)))
+      if nr && (decide (0 < mn) || mx.isSome) then
+        union first (headsRep hr nr r fuel (mn - 1) (mx.map (· - 1)))
+      else first
+
+/-- The non-empty words of `r`, as an alternation of concatenations that start with a character class. -/
+def heads : Regex → Regex
+  | .eps => empty
+  | .cc c => .cc c
+  | .cat a b => if nullable a then union (seq (heads a) b) (heads b) else seq (heads a) b
+  | .alt a b => union (heads a) (heads b)
+  | .rep r mn mx => headsRep (heads r) (nullable r) r (mn + mx.getD 0) mn mx
+  | .ext _ => empty
+
+/-- Head normal form (same language). -/
+def norm (r : Regex) : Regex := if nullable r then union .eps (heads r) else heads r
+
 /-- The derivative matcher. -/
 def matchesB (r : Regex) (w : List Int) : Bool := nullable (derivs r w)
 
@@ -176,7 +212,8 @@ deriving Repr, DecidableEq
 def initVec (rules : List Rule) (sc : Int) : List Regex :=
   rules.map fun r => if r.scs.contains sc then r.re else empty
 
-def stepVec (s : Int) (D : List Regex) : List Regex := D.map (deriv s)
+/-- One character: derivative, then head normal form. -/
+def stepVec (s : Int) (D : List Regex) : List Regex := D.map fun d => norm (deriv s d)
 
 /-- No rule can match any extension of the text consumed so far. -/
 def dead (D : List Regex) : Bool := D.all emptyB
